@@ -42,7 +42,10 @@ import (
 //             s<hex> send; afterwards the handler returns the status <code> <msg> <detail>
 // a transcript is 10 fields:
 //   <backend msgs> <backend saw eof 0|1> <backend req md> <client msgs> <code> <msg> <details> <hdr md> <trl md> <ok|hang|nocall>
-// metadata maps are restricted to keys starting with "x-" and written hexkey=hexval|hexval;...
+// metadata maps are restricted to keys starting with "x-" (and the application keys of c10AppKeys) and written
+// hexkey=hexval|hexval;...
+// front grpcl: the gRPC front of a second Mux over the same backend whose MaxReceiveMessageSize is 96 bytes (send limit
+// at its default): requests stay below it, replies may be larger -- a reply is in the mux's send direction
 
 const c10Deadline = 2 * time.Second
 
@@ -78,6 +81,7 @@ type c10Env struct {
 	msgD    protoreflect.MessageDescriptor
 	gs      *grpc.Server
 	direct  *grpc.ClientConn
+	lbl     *loopback // front with a small receive limit
 	lb      *loopback
 	mux     *larking.Mux
 	// calls whose outcome (ok / hang / nocall) differed between the two paths: each costs up to the
@@ -87,10 +91,14 @@ type c10Env struct {
 
 var c10env *c10Env
 
+// application metadata under names that merely look like protocol headers: grpc-go reserves a fixed list of
+// grpc-* names and lets every other key travel through the metadata API
+var c10AppKeys = map[string]bool{"grpc-tenant": true, "grpc-retry-pushback-ms": true, "grpc-previous-rpc-attempts": true}
+
 func c10EncMap(m map[string][]string) string {
 	keys := make([]string, 0, len(m))
 	for k := range m {
-		if strings.HasPrefix(k, "x-") && len(m[k]) > 0 {
+		if (strings.HasPrefix(k, "x-") || c10AppKeys[k]) && len(m[k]) > 0 {
 			keys = append(keys, k)
 		}
 	}
@@ -355,6 +363,21 @@ func c10Setup() *c10Env {
 	if err != nil {
 		panic(err)
 	}
+	bc2, err := grpc.Dial(lis.Addr().String(), grpc.WithTransportCredentials(insecure.NewCredentials()))
+	if err != nil {
+		panic(err)
+	}
+	mux2, err := larking.NewMux(larking.MaxReceiveMessageSizeOption(96))
+	if err != nil {
+		panic(err)
+	}
+	if err := mux2.RegisterConn(ctx, bc2); err != nil {
+		panic("RegisterConn: " + err.Error())
+	}
+	e.lbl, err = newLoopback(mux2)
+	if err != nil {
+		panic(err)
+	}
 	c10env = e
 	return e
 }
@@ -467,6 +490,9 @@ func (e *c10Env) call(sc *c10Script, proxied bool) (t *c10Trans) {
 	conn := e.direct
 	if proxied {
 		conn = e.lb.conn
+		if sc.front == "grpcl" {
+			conn = e.lbl.conn
+		}
 	}
 	cstr := sc.shape == "cs" || sc.shape == "bi"
 	sstr := sc.shape == "ss" || sc.shape == "bi"
@@ -771,6 +797,29 @@ func c10Gen(o *out, r *rng, tier string) {
 				emit("resp-metadata", mk("un", front, sends(1), bops, s, nil, nil, h))
 			}
 		}
+	}
+	// ---- application metadata under grpc-* names that the protocol does not reserve ----
+	appMds := []map[string][]string{{"grpc-tenant": {"acme"}}, {"grpc-retry-pushback-ms": {"250"}, "x-a": {"v1"}}, {"grpc-previous-rpc-attempts": {"2"}}}
+	for i, s := range []st{okst, fails[0], fails[3]} {
+		bops := R
+		if s.code == 0 {
+			bops = cat(R, sends(1))
+		}
+		for _, a := range appMds {
+			emit("app-metadata-grpc-names", mk("un", "grpc", sends(1), bops, s, a, nil, nil))
+			emit("app-metadata-grpc-names", mk("un", "grpc", sends(1), bops, s, nil, a, nil))
+			emit("app-metadata-grpc-names", mk("un", "grpc", sends(1), bops, s, nil, nil, a))
+		}
+		emit("app-metadata-grpc-names", mk("bi", "grpc", cat(sends(2), C), cat(E, sends(i)), s, appMds[0], appMds[1], appMds[2]))
+		emit("app-metadata-grpc-names", mk("cs", "grpc", cat(sends(2), C), cat(E, bops[1:]), s, appMds[2], appMds[0], appMds[1]))
+	}
+	// ---- replies larger than the front mux's receive limit (within its send limit) ----
+	big := func(n int) []c10Op { return []c10Op{{'s', strings.Repeat("r", n)}} }
+	for _, n := range []int{90, 97, 200, 5000} {
+		emit("reply-above-receive-limit", mk("un", "grpcl", sends(1), cat(R, big(n)), okst, nil, nil, nil))
+		emit("reply-above-receive-limit", mk("ss", "grpcl", sends(1), cat(R, big(n), sends(1), big(n)), okst, nil, nil, nil))
+		emit("reply-above-receive-limit", mk("cs", "grpcl", cat(sends(2), C), cat(E, big(n)), okst, nil, nil, nil))
+		emit("reply-above-receive-limit", mk("bi", "grpcl", cat(sends(1), R, sends(1), C), cat(R, big(n), E, big(n)), fails[n%len(fails)], nil, nil, nil))
 	}
 	// ---- server streaming: k replies, failing after k replies, replying before reading ----
 	for k := 0; k <= 4; k++ {
